@@ -9,6 +9,7 @@ order of the include-directory set (SimSet), order / spelling / duplication / sy
 """
 import copy
 import json
+import os
 import random
 
 from sim.runner import H
@@ -79,10 +80,22 @@ def build_worlds(case):
     for i in sched.get('dups', []):
         if i < len(argv_dirs):
             argv_dirs.append(_spell(dirs[i], 'dot'))
-    argv = ['bespokeasm', 'compile', '-c', case['isa_name'], 'main.asm', '-p', '-t', 'intel_hex']
+    cwd = PDIR
+    main_arg, isa_arg = 'main.asm', case['isa_name']
+    if sched.get('src_dir_again'):
+        # the source file's own directory supplied once more as a search directory, under some spelling
+        argv_dirs.append({'dot': '.', 'abs': PDIR, 'slash': './'}[sched['src_dir_again']])
+    if sched.get('cwd_elsewhere'):
+        # started from another directory that happens to hold files named like the included ones (never searched)
+        cwd = '/sim/w'
+        main_arg, isa_arg = f'{PDIR}/main.asm', f'{PDIR}/{case["isa_name"]}'
+        argv_dirs = [d if d.startswith('/') else os.path.normpath(f'{PDIR}/{d}') for d in argv_dirs]
+        for rel in list(progtree.split_files(main)) + ['nofile.asm']:
+            files[f'/sim/w/{os.path.basename(rel)}'] = '  .byte $DE, $C0\n'
+    argv = ['bespokeasm', 'compile', '-c', isa_arg, main_arg, '-p', '-t', 'intel_hex']
     for d in argv_dirs:
         argv += ['-I', d]
-    split = {'files': {**isa, **files}, 'links': links, 'argv': argv, 'cwd': PDIR, 'env': {'HOME': '/sim/home'},
+    split = {'files': {**isa, **files}, 'links': links, 'argv': argv, 'cwd': cwd, 'env': {'HOME': '/sim/home'},
              'set_seed': sched.get('set_seed'), 'faults': list(case.get('faults', [])),
              'dirs': [f'{PDIR}/{d}' for d in dirs], 'step_budget': 4_000_000}
     ref_lines = progtree.reference_lines(main) + table
@@ -124,7 +137,7 @@ def check_case(case, ref_result=None):
                 a, b = rs['files'].get(img) or '', rr['files'].get(img) or ''
                 obs['first_diff'] = next((i for i in range(min(len(a), len(b))) if a[i] != b[i]), min(len(a), len(b)))
                 obs['sizes'] = [len(a), len(b)]
-            elif rs['stdout'] != rr['stdout']:
+            elif rs['stdout'].replace(PDIR + '/', '') != rr['stdout'].replace(PDIR + '/', ''):
                 v.append('INC-hex-differs')
         return {'violations': v, 'observed': obs, 'split': rs, 'ref': rr}
     # negative and fault worlds: must be rejected, fail closed
@@ -160,12 +173,22 @@ def shrink_paths(case):
 # -----------------------------------------------------------------------------------------------
 def gen_sched(rnd, ndirs, trivial=False):
     if trivial or ndirs == 0:
-        return {'set_seed': None if trivial else rnd.randrange(1 << 30)}
+        sc = {'set_seed': None if trivial else rnd.randrange(1 << 30)}
+        if not trivial and rnd.random() < 0.4:
+            sc['src_dir_again'] = rnd.choice(['dot', 'abs', 'slash'])
+        if not trivial and rnd.random() < 0.4:
+            sc['cwd_elsewhere'] = True
+        return sc
     order = list(range(ndirs))
     rnd.shuffle(order)
-    return {'set_seed': rnd.randrange(1 << 30), 'order': order,
-            'spell': [rnd.choice(['plain', 'dot', 'slash', 'abs', 'alias']) for _ in range(ndirs)],
-            'dups': [rnd.randrange(ndirs)] if rnd.random() < 0.3 else []}
+    sc = {'set_seed': rnd.randrange(1 << 30), 'order': order,
+          'spell': [rnd.choice(['plain', 'dot', 'slash', 'abs', 'alias']) for _ in range(ndirs)],
+          'dups': [rnd.randrange(ndirs)] if rnd.random() < 0.3 else []}
+    if rnd.random() < 0.25:
+        sc['src_dir_again'] = rnd.choice(['dot', 'abs', 'slash'])
+    if rnd.random() < 0.25:
+        sc['cwd_elsewhere'] = True
+    return sc
 
 
 def strip_wrappers(f):
